@@ -29,7 +29,12 @@ type Case struct {
 	Headers string `json:"headers"` // none|single|repeated|lower
 	Cookies string `json:"cookies"`
 	Body    string `json:"body"` // none|json|form|badjson|json-chunked|form-chunked
+	// ForwardAuth: the decision service is asked the way a forward-auth proxy asks it (a GET from a trusted peer that
+	// describes the original request in X-Forwarded-Method/-Proto/-Host/-Uri); the other two entry points get the request itself
+	ForwardAuth bool `json:"decision_asked_in_forward_auth_style,omitempty"`
 }
+
+const forwardAuthPeer = "10.0.0.1:4711"
 
 var echo = map[string]string{
 	"X-V-Method":    `{{ .Request.Method }}`,
@@ -286,7 +291,24 @@ func judge(c *engine.Ctx, apps *hx.Apps, cs *Case) {
 
 		switch e {
 		case "decision":
-			r = apps.DoDecision(cs.req())
+			req := cs.req()
+			if cs.ForwardAuth {
+				uri := req.RawPath
+				if req.RawQuery != "" {
+					uri += "?" + req.RawQuery
+				}
+
+				req.Header = append(req.Header, [2]string{"X-Forwarded-Method", req.Method}, [2]string{"X-Forwarded-Proto", req.Scheme},
+					[2]string{"X-Forwarded-Host", req.Host}, [2]string{"X-Forwarded-Uri", uri})
+
+				if req.Body == "" {
+					req.Method = "GET"
+				}
+
+				req.Scheme, req.Host, req.RawPath, req.RawQuery, req.RemoteAddr = "http", "heimdall.local", "/", "", forwardAuthPeer
+			}
+
+			r = apps.DoDecision(req)
 		case "proxy":
 			r = apps.DoProxy(cs.req())
 		default:
@@ -371,8 +393,32 @@ func cases(quick bool) []Case {
 										continue
 									}
 
-									out = append(out, Case{m, sch, pre + id, q, h, ck, b})
+									out = append(out, Case{m, sch, pre + id, q, h, ck, b, false})
 								}
+							}
+						}
+					}
+				}
+			}
+		}
+	}
+
+	// the decision service asked in forward-auth style, also for extension methods
+	for _, m := range []string{"GET", "POST", "DELETE", "PROPFIND", "QUERY"} {
+		for _, sch := range []string{"http", "https"} {
+			for _, pre := range prefixes {
+				for _, id := range ids {
+					for _, q := range queries {
+						for _, fa := range []bool{true, false} {
+							if !fa && (m == "GET" || m == "POST") {
+								continue // in the product above
+							}
+
+							out = append(out, Case{Method: m, Scheme: sch, Path: pre + id, Query: q, Headers: "single", Cookies: "c=1", Body: "none",
+								ForwardAuth: fa})
+
+							if m == "POST" {
+								out = append(out, Case{Method: m, Scheme: sch, Path: pre + id, Query: q, Headers: "none", Body: "json", ForwardAuth: fa})
 							}
 						}
 					}
@@ -389,7 +435,8 @@ func Check() *engine.Check {
 		ID:    "C13",
 		Level: "exploration",
 		Rule: "full product of logical requests (method x scheme x 6 rules x 4 path ids incl. percent-encoded, encoded slash and UTF-8 x 3 " +
-			"queries x 4 header variants incl. repeated and lower-case x 3 cookie variants x 6 bodies incl. chunked transfer) sent through the three assembled real services " +
+			"queries x 4 header variants incl. repeated and lower-case x 3 cookie variants x 6 bodies incl. chunked transfer; plus methods DELETE, " +
+			"PROPFIND, QUERY and the decision service asked in forward-auth style by a trusted peer) sent through the three assembled real services " +
 			"(decision and proxy handler chains via ServeHTTP on parsed raw requests, Envoy gRPC server over an in-memory connection, recording upstream) " +
 			"loaded with one rule set of real mechanisms (anonymous authenticator, CEL authorizers on captures/method/path, conditional finalizer, " +
 			"header finalizer echoing every request-view component, two finalizers adding the same header, cookie finalizer); oracle: pairwise equality " +
@@ -418,7 +465,10 @@ func setup() (*hx.Apps, error) {
 		return nil, err
 	}
 
-	apps := hx.NewApps(&config.Configuration{}, nil)
+	conf := &config.Configuration{}
+	conf.Serve.Decision.TrustedProxies = &[]string{"10.0.0.1"}
+
+	apps := hx.NewApps(conf, nil)
 	if err := apps.Load(mf, ruleSets(apps.Upstream.Host())); err != nil {
 		apps.Close()
 
